@@ -42,7 +42,7 @@ SPEC = {
     ],
     "bounds": {
         "quick": {"dim": "1..4 (all entries, all angle vectors, anis>0 symbolic)", "points": "1 symbolic point per pipeline obligation"},
-        "thorough": {"dim": "1..4", "points": "2 symbolic points"},
+        "thorough": {"dim": "1..4; rotation-matrix identities and the isometrisation pipeline also for dim 5 (10 planes)", "points": "2 symbolic points"},
     },
     "stubs": ["sin/cos as uninterpreted functions with sin^2+cos^2=1, parity, angle addition"],
     "oracle": "2-D: counter-clockwise rotation [[c,-s],[s,c]]; 3-D: Rx(roll).Ry(pitch).Rz(yaw) with right-handed elementary rotations; "
@@ -396,6 +396,11 @@ def jobs(tier, seed):
         js.append(Job(f"model-d{d}", job_model, d, tier))
         js.append(Job(f"pipeline-d{d}", job_pipeline, d, tier))
     js.append(Job("padding", job_padding, tier))
+    if tier == "thorough":
+        # dimension 5 (10 rotation planes): rotation-matrix identities and the isometrisation pipeline; the model-level job does
+        # not finish there (15 min) and stays at d <= 4
+        js.append(Job("matrix-d5", job_matrix, 5, tier))
+        js.append(Job("pipeline-d5", job_pipeline, 5, tier))
     return js
 
 
